@@ -1854,21 +1854,20 @@ impl<T: PPGEvaluatorStrategy> PPGEvaluator<T> {
         missing_upstream_id: &str,
         downstream_id: &str,
         history: &HashMap<String, String>,
-    ) -> Option<String> {
+    ) -> Vec<String> {
         // since multi file output jobs change their names
         // but we only invalidate based on the actual job inputs
         // we need to rematch them here.
         // upstream_id is the job we have 'lost' from our set of inputs
         //
+        // Returns every old name (sharing at least one output with the missing job) under
+        // which the downstream has recorded an input, best match first.
         let missing_upstream_outputs: HashSet<String> = missing_upstream_id
             .split(":::")
             .map(|x| x.to_string())
             .collect();
 
-        let mut best: Option<String> = None;
-        let mut best_count = 0;
-        // outputs of the best candidate that the missing job does not produce
-        let mut best_foreign = 0;
+        let mut candidates = Vec::new();
         let query = format!("!!!{}", downstream_id);
         for history_entry in history.keys() {
             if history_entry.ends_with(&query) {
@@ -1886,28 +1885,61 @@ impl<T: PPGEvaluatorStrategy> PPGEvaluator<T> {
                 let overlap = historical_upstream_outputs
                     .intersection(&missing_upstream_outputs)
                     .count();
-                // when an output moved from one job to another, several old jobs share
-                // outputs with the missing one. Prefer the closest one, and never let the
-                // iteration order of the history decide.
-                let foreign = historical_upstream_outputs.len() - overlap;
-                let better = overlap > best_count
-                    || (overlap > 0
-                        && overlap == best_count
-                        && match &best {
-                            Some(b) => {
-                                (foreign, historical_upstream_id) < (best_foreign, b.as_str())
-                            }
-                            None => true,
-                        });
-                if better {
-                    best_count = overlap;
-                    best_foreign = foreign;
-                    best = Some(historical_upstream_id.to_string())
+                if overlap > 0 {
+                    // outputs of the candidate that the missing job does not produce
+                    let foreign = historical_upstream_outputs.len() - overlap;
+                    candidates.push((overlap, foreign, historical_upstream_id.to_string()));
                 }
             }
         }
+        // when an output moved from one job to another, several old jobs share
+        // outputs with the missing one. Prefer the closest one, and never let the
+        // iteration order of the history decide.
+        candidates.sort_by(|a, b| b.0.cmp(&a.0).then(a.1.cmp(&b.1)).then(a.2.cmp(&b.2)));
+        candidates.into_iter().map(|x| x.2).collect()
+    }
 
-        best
+    /// What the downstream has recorded about an upstream that has no record under its
+    /// current name (a renamed multi output job): the record under an old name that the
+    /// strategy judges unaltered against the upstream's current output, if there is one,
+    /// otherwise the one under the best matching old name (which then invalidates).
+    /// Several old names can match when outputs moved between jobs; only the record
+    /// that covers what the downstream consumes can be judged unaltered.
+    fn renamed_upstream_record<'a>(
+        strategy: &dyn PPGEvaluatorStrategy,
+        upstream_id: &str,
+        downstream_id: &str,
+        history: &'a HashMap<String, String>,
+        current_value: Option<&String>,
+    ) -> Option<&'a String> {
+        let records: Vec<&'a String> =
+            Self::try_finding_renamed_multi_output_job(upstream_id, downstream_id, history)
+                .iter()
+                .filter_map(|old_name| {
+                    debug!(
+                        "No history for {}, but found {} to use instead",
+                        upstream_id, old_name
+                    );
+                    // what this downstream has seen of it, not what the old job
+                    // produced last
+                    history.get(&format!("{}!!!{}", old_name, downstream_id))
+                })
+                .collect();
+        if let Some(current_value) = current_value {
+            if records.len() > 1 {
+                for record in records.iter() {
+                    if !strategy.is_history_altered(
+                        upstream_id,
+                        downstream_id,
+                        record,
+                        current_value,
+                    ) {
+                        return Some(record);
+                    }
+                }
+            }
+        }
+        records.first().copied()
     }
 
     fn edge_invalidated(
@@ -1944,24 +1976,14 @@ impl<T: PPGEvaluatorStrategy> PPGEvaluator<T> {
                         // so skipping out on jobs not containging ":::"
                         // can't be done.
                         //{
-                        match Self::try_finding_renamed_multi_output_job(
+                        Self::renamed_upstream_record(
+                            strategy,
                             upstream_id,
                             downstream_id,
                             history,
-                        ) {
-                            Some(x) => {
-                                debug!(
-                                    "No history for {}, but found {} to use instead",
-                                    upstream_id, x
-                                );
-                                // what this downstream has seen of it, not what the old job
-                                // produced last
-                                history
-                                    .get(&format!("{}!!!{}", x, downstream_id))
-                                    .map(Cow::from)
-                            }
-                            None => None,
-                        }
+                            jobs[upstream_idx].history_output.as_ref(),
+                        )
+                        .map(Cow::from)
                         /* } else {
                             None
                         } */
@@ -2098,14 +2120,13 @@ impl<T: PPGEvaluatorStrategy> PPGEvaluator<T> {
                     .or_else(|| {
                         // same as in edge_invalidated: the upstream might be a multi output job
                         // that has been renamed since this job was done.
-                        Self::try_finding_renamed_multi_output_job(
+                        Self::renamed_upstream_record(
+                            strategy,
                             &jobs[upstream_idx].job_id,
                             &jobs[node_idx].job_id,
                             history,
+                            Some(upstream_historical_output),
                         )
-                        .and_then(|x| {
-                            history.get(&format!("{}!!!{}", x, &jobs[node_idx].job_id))
-                        })
                     });
                 match my_historical_input {
                     None => {
